@@ -51,6 +51,8 @@ pub const RAW: &[&str] = &[
     // bytes that look like ASCII/Latin-1 code points (0xAD, 0xA0, 0x85)
     "\x7f", "\x0b", "\x0c", "\x00", "😭", "中", "í", "ね", "\u{2003}", "\u{2002}", "\u{2d}", "~", "@", "`",
     "\x1b[1~", "\x1b[2@", "\x1b]0;C:\\tmp\x07",
+    // joiners, modifiers, selectors: sequences whose string width differs from the per-char sum
+    "\u{200d}", "\u{1f3fd}", "\u{fe0f}", "👍", "👩", "💻", "\u{644}", "\u{627}", "\u{1f1e9}", "\u{1f1ea}", "\x1b[4:3m", ":", "?", "!",
 ];
 
 pub const VOCAB: &[&str] = &[
@@ -59,9 +61,13 @@ pub const VOCAB: &[&str] = &[
     "--flag", "a-", "-b", "re-", "naïve", "café", "Ｈｅｌｌｏ", "日本語", "😂😭", "e\u{301}x", "zero\u{200b}width",
     "extraordinarily", "supercalifragilistic", "1-2-3", "it's", "end.", "(see)", "a/b", "0", "Z9-Z9",
     "中中中", "😭😭", "rí-o", "café-olé", "中-文", "tab\tbed", "x\ry", "del\x7f", "pre-", "ね-ね",
+    // words the Unicode separator keeps together although they contain a space; ZWJ and
+    // modifier sequences; ligatures; soft hyphens inside words
+    "what ?!", "a )", "[ foo ]", "Bonjour !", "👩\u{200d}💻", "👍\u{1f3fd}", "ab\u{200d}cd", "\u{644}\u{627}\u{644}\u{627}", "❤\u{fe0f}",
+    "Zusammen\u{ad}arbeit", "🇩🇪🇩🇪",
 ];
 
-pub const SGR: &[&str] = &["\x1b[31m", "\x1b[0m", "\x1b[1;34m", "\x1b[m", "\x1b[38;5;196m"];
+pub const SGR: &[&str] = &["\x1b[31m", "\x1b[0m", "\x1b[1;34m", "\x1b[m", "\x1b[38;5;196m", "\x1b[4:3m", "\x1b[38:5:208m"];
 /// well-formed CSI sequences whose final byte is not a letter, OSC with a backslash in the payload
 pub const OTHER_SEQ: &[&str] = &["\x1b[1~", "\x1b[2@", "\x1b[5`", "\x1b]0;C:\\tmp\x07", "\x1b]8;;file://C:\\x\x1b\\"];
 pub const OSC_OPEN: &[&str] = &[
